@@ -636,7 +636,88 @@ def check_constants(ctx, R="C07.const"):
     ctx.floor(R, n, 100, "veneer functions")
 
 
+
+def _block_of(stmt):
+    p_ = parent(stmt)
+    for f in ("body", "orelse", "finalbody"):
+        seq = getattr(p_, f, None)
+        if isinstance(seq, list) and any(x is stmt for x in seq):
+            return seq
+    return []
+
+
+def check_relative(ctx, R="C07.relative"):
+    ctx.rule(
+        R,
+        "`X relative to Y` composes in Y's frame: wherever RelativeTo combines a value derived from X with one derived from Y by `*` "
+        "(orientations) or by the `+` of the vector-field helper (whose values may be orientations, for which `+` is composition), the "
+        "Y-derived operand is the LEFT one (Y first, then X within it); only the sums of two headings or of two vectors (commutative) may be written either way",
+    )
+    model = ctx.model
+    fn = model.func(VE, "RelativeTo")
+    px, py = fn.args.args[0].arg, fn.args.args[1].arg
+    n = 0
+    for b in ast.walk(fn):
+        if not (isinstance(b, ast.BinOp) and isinstance(b.op, (ast.Add, ast.Mult))):
+            continue
+        owner = lib.enclosing_function(b)
+        if owner is None:
+            continue
+        le, re_ = lib.role_expr(owner, b.left), lib.role_expr(owner, b.right)
+
+        stmt = lib.statement_of(b)
+        blk = _block_of(stmt)
+
+        def side(e):
+            names = set(lib.names_loaded(e))
+            for nm in list(names):
+                # a local assigned several times in the function: the assignment just before this statement in its own block
+                prev = None
+                for st_ in blk:
+                    if st_ is stmt:
+                        break
+                    if isinstance(st_, ast.Assign) and any(isinstance(t, ast.Name) and t.id == nm for t in st_.targets):
+                        prev = st_.value
+                if prev is not None:
+                    names |= lib.names_loaded(prev)
+            return {p for p in (px, py) if p in names}
+
+        def commutative_kind(e):
+            """e is a heading or a vector by construction: toHeading(..) / toVector(..) / <point>.heading, possibly through a local"""
+            if isinstance(e, ast.Call) and dotted(e.func) in ("toHeading", "toVector"):
+                return True
+            if isinstance(e, ast.Attribute) and e.attr == "heading":
+                return True
+            if isinstance(e, ast.Name):
+                prev = None
+                for st_ in blk:
+                    if st_ is stmt:
+                        break
+                    if isinstance(st_, ast.Assign) and any(isinstance(t, ast.Name) and t.id == e.id for t in st_.targets):
+                        prev = st_.value
+                return prev is not None and commutative_kind(prev)
+            return False
+
+        sl, sr = side(le), side(re_)
+        if len(sl) != 1 or len(sr) != 1 or sl == sr:
+            continue
+        n += 1
+        scalar = all(commutative_kind(e) for e in (le, re_))
+        if sl == {py} or scalar:
+            ctx.ok(R, b, f"`{norm_text(b, 50)}`: " + ("Y's value is the left operand" if sl == {py} else "sum of two headings / vectors (commutative)"))
+        else:
+            ctx.finding(
+                R,
+                b,
+                f"relative-to composition order {norm_text(b, 40)}",
+                f"veneer.RelativeTo computes `{norm_text(b, 60)}` with the X-derived value on the left: for orientations (also as values of a vector field) the operator composes rotations, "
+                f"and `X relative to Y` is Y followed by X in Y's frame (`Y op X`), so the result differs whenever the two rotations do not commute",
+            )
+    ctx.floor(R, n, 3, "compositions of an X-derived with a Y-derived value in RelativeTo")
+
+
 def check(ctx):
+    ctx.run(check_relative)
     ctx.run(check_directional)
     ctx.run(check_corners)
     ctx.run(check_binding)
